@@ -55,7 +55,8 @@ type DSLGen struct {
 	R *rand.Rand
 	// Big: many types / relations / conditions / parameters / restrictions / operands (beyond the small-slice
 	// thresholds of sort and of hand-written fast paths). Set per document by Doc with probability 1/40.
-	Big bool
+	Big       bool
+	ForceDeep int // when > 0 the next relation generated is a spine of that many nested groups
 }
 
 func (g *DSLGen) pick(xs []string) string { return xs[g.R.Intn(len(xs))] }
@@ -210,6 +211,15 @@ func (g *DSLGen) nameOr(rnames []string) string {
 // relDef generates: (direct | leaf | paren(relDef)) partials?   ; allowDirect says whether a direct may appear at the leftmost position
 func (g *DSLGen) relDef(depth int, tnames, rnames, conds []string, allowDirect bool) *Expr {
 	r := g.R
+	if depth == 0 && g.ForceDeep > 0 {
+		d := g.ForceDeep // beyond any plausible fixed recursion / stack limit; parsing is quadratic in the depth
+		g.ForceDeep = 0
+		return g.spine(d, tnames, rnames, conds, allowDirect)
+	}
+	if depth == 0 && r.Intn(14) == 0 {
+		// "all nesting depths": a spine of 4-10 nested groups (the ordinary trees stop at depth 3)
+		return g.spine(4+r.Intn(7), tnames, rnames, conds, allowDirect)
+	}
 	var first *Expr
 	switch k := r.Intn(10); {
 	case allowDirect && k < 4:
@@ -234,6 +244,43 @@ func (g *DSLGen) relDef(depth int, tnames, rnames, conds []string, allowDirect b
 	for i := 0; i < n; i++ {
 		if r.Intn(4) == 0 && depth < 3 {
 			e.Kids = append(e.Kids, &Expr{Kind: "paren", Kids: []*Expr{g.relDef(depth+1, tnames, rnames, conds, false)}})
+		} else {
+			e.Kids = append(e.Kids, g.leaf(rnames))
+		}
+	}
+	return e
+}
+
+// spine: d nested parenthesised groups, one per level, the group being the first operand or a later one; a direct
+// assignment only ever at a leftmost position.
+func (g *DSLGen) spine(d int, tnames, rnames, conds []string, allowDirect bool) *Expr {
+	r := g.R
+	if d == 0 {
+		if allowDirect && r.Intn(2) == 0 {
+			return &Expr{Kind: "direct", Restr: g.restrictions(tnames, rnames, conds)}
+		}
+		return g.leaf(rnames)
+	}
+	op := []string{"or", "and", "butnot"}[r.Intn(3)]
+	innerFirst := r.Intn(2) == 0
+	var first *Expr
+	switch {
+	case innerFirst:
+		first = &Expr{Kind: "paren", Kids: []*Expr{g.spine(d-1, tnames, rnames, conds, allowDirect)}}
+	case allowDirect && r.Intn(3) == 0:
+		first = &Expr{Kind: "direct", Restr: g.restrictions(tnames, rnames, conds)}
+	default:
+		first = g.leaf(rnames)
+	}
+	n := 1
+	if op != "butnot" {
+		n = 1 + r.Intn(2)
+	}
+	e := &Expr{Kind: op, Kids: []*Expr{first}}
+	slot := r.Intn(n)
+	for i := 0; i < n; i++ {
+		if !innerFirst && i == slot {
+			e.Kids = append(e.Kids, &Expr{Kind: "paren", Kids: []*Expr{g.spine(d-1, tnames, rnames, conds, false)}})
 		} else {
 			e.Kids = append(e.Kids, g.leaf(rnames))
 		}
